@@ -2,7 +2,30 @@
 
 SM = "./pkg/pdfcpu/safemath"
 
+TY = "./pkg/pdfcpu/types"
+
 PROPS = {
+    "C12": dict(
+        pkg=TY,
+        explanation="Escape/Unescape and EncodeName/DecodeName executed symbolically on byte strings whose every byte is an unconstrained SMT variable (lengths 0..N forked); oracles (odd backslash run before each parenthesis; regular printable alphabet; '#' only followed by two hex digits) are plain Go in the harness",
+        outside="strings longer than the bound N; the inductive argument that longer strings add no new behaviour is not machine-checked",
+        assumptions=["names contain no NUL byte (the property's precondition)"],
+        harnesses=[
+            dict(name="VerifEscapeRoundTrip", bounds=dict(quick=dict(N=4), thorough=dict(N=6)), opts=dict(unwind=64)),
+            dict(name="VerifNameRoundTrip", bounds=dict(quick=dict(N=6), thorough=dict(N=10)), opts=dict(unwind=64)),
+        ],
+    ),
+    "C13": dict(
+        pkg=TY,
+        explanation="EscapedUTF16String/EncodeUTF16String then StringLiteralToString/HexLiteralToString executed symbolically on texts of K runes, each rune one SMT variable ranging over all 1,112,064 Unicode scalar values at once; decodeUTF16String on arbitrary well-formed UTF-16BE unit sequences",
+        outside="texts longer than K runes; PDFDocEncoding fallback path for non-UTF-16 input",
+        assumptions=["input text is valid Unicode (no surrogates, <= U+10FFFF), encoded by utf8.AppendRune"],
+        harnesses=[
+            dict(name="VerifUTF16LiteralRoundTrip", bounds=dict(quick=dict(K=1), thorough=dict(K=2)), opts=dict(unwind=64)),
+            dict(name="VerifUTF16HexRoundTrip", bounds=dict(quick=dict(K=1), thorough=dict(K=2)), opts=dict(unwind=64)),
+            dict(name="VerifUTF16DecodeTotal", bounds=dict(quick=dict(K=2), thorough=dict(K=3)), opts=dict(unwind=64)),
+        ],
+    ),
     "C42": dict(
         pkg=SM,
         level="model_checking",
